@@ -321,12 +321,6 @@ func (w *world) runScenario(sc *Scenario) {
 	for i := range regs {
 		byIdent[fmt.Sprintf("%d/%x", regs[i].ev.Eon, regs[i].ident)] = &regs[i]
 	}
-	multiReg := map[string]int{} // identity key -> number of registrations anywhere in the tree
-	for i := range regs {
-		if admissibleReg(sc, regs[i].ev) {
-			multiReg[fmt.Sprintf("%d/%x", regs[i].ev.Eon, regs[i].ident)]++
-		}
-	}
 	logID := func(b *ethfake.Block, li int) uint64 { return uint64(b.ID)*1000 + uint64(li) }
 
 	type final struct {
@@ -466,6 +460,52 @@ func (w *world) runScenario(sc *Scenario) {
 				rangeSerial++
 				for n := from.Uint64(); n <= to.Uint64() && n < uint64(len(branch)); n++ {
 					rangeOf[branch[n].ID] = rangeSerial
+				}
+			}
+			// D14, exact shape: this Sync rolled back to block `to` (its first range starts at or below the
+			// old position, or it left the position with an empty hash below the old one); an identity
+			// whose row sat in a deleted block (> to) because a later registration had moved it there,
+			// while an earlier registration of the same identity is on the new canonical chain at a
+			// block <= to, has lost its row although it is canonically registered.
+			if pre.Present {
+				to := int64(-1)
+				if post.Present && len(post.Hash) == 0 && post.Number < pre.Number {
+					to = post.Number
+				}
+				for _, c := range out.RPCCalls {
+					if c.Method != "eth_getLogs" || !strings.Contains(strings.ToLower(c.Params), trigTopic) {
+						continue
+					}
+					var ps []struct {
+						From string `json:"fromBlock"`
+					}
+					if json.Unmarshal([]byte(c.Params), &ps) == nil && len(ps) > 0 {
+						if from, ok := new(big.Int).SetString(strings.TrimPrefix(ps[0].From, "0x"), 16); ok && from.Int64() <= pre.Number && (to < 0 || from.Int64()-1 < to) {
+							to = from.Int64() - 1
+						}
+					}
+					break // the first range of this Sync
+				}
+				if to >= 0 && to < pre.Number {
+					for _, r := range preRows {
+						if r.Block <= to {
+							continue
+						}
+						ik := fmt.Sprintf("%d/%x", r.Eon, r.Ident)
+						if lostReg[ik] {
+							continue
+						}
+						for n := int64(effStart); n <= to && n < int64(len(branch)); n++ {
+							for _, it := range rig.ItemsOf(branch[n]) {
+								if it.Ev != nil && admissibleReg(sc, it.Ev) && fmt.Sprintf("%d/%x", it.Ev.Eon, identOf(it.Ev, defs[it.Ev.Def])) == ik && !lostReg[ik] {
+									lostReg[ik] = true
+									fin.clean = false
+									run.Violate(vh.Violation{Key: reregKey, What: "a rollback deleted the only row of an identity whose earlier registration is still on the canonical chain (the upsert of a later registration had moved the row into the deleted blocks)",
+										Case: trunc(oi), Observed: map[string]any{"row_before_rollback": r, "rollback_to": to, "earlier_registration_block": n}})
+								}
+							}
+						}
+					}
 				}
 			}
 			// ---- correspondence case
@@ -677,7 +717,7 @@ func (w *world) runScenario(sc *Scenario) {
 					if before {
 						key = d9Key
 					}
-					// do all differences concern identities that are registered more than once in the tree?
+					// are all differences consequences of rows lost in the exact D14 shape (detected at the rollback)?
 					gotSet, wantSet := map[string]bool{}, map[string]bool{}
 					for _, x := range gotRegs {
 						gotSet[x] = true
@@ -687,25 +727,14 @@ func (w *world) runScenario(sc *Scenario) {
 					}
 					onlyRereg := true
 					identOfRow := func(x string) string { p := strings.Split(x, "/"); return p[2] + "/" + p[3] }
-					gotIdent := map[string]bool{}
-					for _, x := range gotRegs {
-						gotIdent[identOfRow(x)] = true
-					}
 					for _, x := range append(append([]string{}, gotRegs...), wantRegs...) {
-						// the shape of that defect: the row of a repeatedly registered identity is ABSENT
-						// (a row that is present with the wrong registration's data is something else)
-						if gotSet[x] != wantSet[x] && (multiReg[identOfRow(x)] < 2 || gotIdent[identOfRow(x)]) {
+						if gotSet[x] != wantSet[x] && !lostReg[identOfRow(x)] {
 							onlyRereg = false
 						}
 					}
 					if !before && onlyRereg {
 						key = reregKey
-						what = "an identity was registered again in a block that a reorganisation abandoned: the upsert had moved its row to that block, the rollback deleted the row, and the earlier registration, which is still on the canonical chain, is gone"
-						for _, x := range wantRegs {
-							if !gotSet[x] {
-								lostReg[identOfRow(x)] = true
-							}
-						}
+						what = "the registration table lacks (or has a later, different row for) an identity whose row a rollback deleted although an earlier registration is on the canonical chain"
 					}
 					run.Violate(vh.Violation{Key: key, What: what, Case: trunc(oi), Observed: gotRegs, Expected: wantRegs})
 					if !before {
@@ -745,9 +774,36 @@ func (w *world) runScenario(sc *Scenario) {
 				if ok && wp.Block == f.Block && wp.Tx == f.Tx && wp.Log == f.Log && bytes.Equal(wp.BHash, f.BHash) {
 					continue
 				}
+				if lostReg[ik] {
+					continue // consequence of the lost row (reported under its own key when the rollback deleted it)
+				}
 				if ok && (knownMissed[ik] || sameRange(ik)) {
 					reportD10(ik, wp) // fired on a later log because the earliest one was in the registration's range
 					continue
+				}
+				// the D10 shape with a RE-registration: a registration of this identity lies inside the very
+				// range in which the recorded log was matched, in a block before the log's block - the log was
+				// judged with the stale row (e.g. the old, longer expiry) although the canonical verdict
+				// depends on the registration inside the range
+				if int(f.Block) < len(branch) {
+					d10 := false
+					for n := int64(effStart); n < f.Block; n++ {
+						for _, it := range rig.ItemsOf(branch[n]) {
+							if it.Ev != nil && admissibleReg(sc, it.Ev) && fmt.Sprintf("%d/%x", it.Ev.Eon, identOf(it.Ev, defs[it.Ev.Def])) == ik &&
+								rangeOf[branch[n].ID] != 0 && rangeOf[branch[n].ID] == rangeOf[branch[f.Block].ID] {
+								d10 = true
+							}
+						}
+					}
+					if d10 {
+						if !knownMissed[ik] {
+							knownMissed[ik] = true
+							fin.d10 = true
+							run.Violate(vh.Violation{Key: d10Key, What: "a trigger (re-)registered inside a sync range is matched against the later logs of that range with the row as it was before the range",
+								Case: trunc(oi), Observed: f, Expected: wp})
+						}
+						continue
+					}
 				}
 				if rg := byIdent[ik]; rg != nil && rig.Blocks[rg.blockID].Number < effStart {
 					// D9 (C15): after a rollback to before the sync start the resync stored a registration older than the sync start
